@@ -4,4 +4,11 @@ go 1.26
 
 require github.com/Shopify/toxiproxy/v2 v2.0.0
 
+require (
+	github.com/mattn/go-colorable v0.1.13 // indirect
+	github.com/mattn/go-isatty v0.0.20 // indirect
+	github.com/rs/zerolog v1.34.0 // indirect
+	golang.org/x/sys v0.31.0 // indirect
+)
+
 replace github.com/Shopify/toxiproxy/v2 => /repo
